@@ -219,6 +219,10 @@ def standard_check(pid, reg, tier, seed, args, t0):
         if drift:
             drifts += 1
 
+    for xo in reg.get("cross_oracles", []):
+        for ci, problem in xo(cases, impl):
+            if not any(c is cases[ci] for c, _, _, _ in oracle_fail):
+                oracle_fail.append((cases[ci], impl[ci], model[ci], [problem]))
     violations = []      # (replay_path, suffix)
     fixed, opened = E.known_findings()
 
@@ -234,7 +238,7 @@ def standard_check(pid, reg, tier, seed, args, t0):
 
     if oracle_fail:
         c, io, mo, problems = min(oracle_fail, key=lambda x: len(x[0]))
-        small = minimise(c, fails_oracle)
+        small = minimise(c, fails_oracle) if fails_oracle(c) else c
         io2 = E.run_impl(binp, [small], extra)[0]
         pr2 = [p for o in reg["oracles"] for p in o(small, io2)] or problems
         path = E.write_replay(pid, "oracle", dict(script=small, impl_trace=io2, problems=pr2,
